@@ -109,5 +109,9 @@ theorem exec_sound {names : List Name} {fresh : Conn} {σ σ' : State} {op : Op}
     simp only [exec] at h
     cases h
     exact ⟨rfl, rfl⟩
+  | other c =>
+    simp only [exec] at h
+    cases h
+    exact ⟨rfl, rfl⟩
 
 end Txdbus.Bus.Spec
